@@ -144,7 +144,7 @@ LEVEL_TEXT = (
     "Exploration: the real Component methods are executed on built-in and synthetic Antoine/Frost constant sets at "
     "200-500 K; the heat of vaporisation is compared with a Richardson-extrapolated derivative of the real vapour "
     "pressure (1e-9 relative), the cooling heat with Gauss-Legendre quadrature of the real specific heat (exact for "
-    "cubic polynomials) and with its algebraic laws; numpy-array arguments must give the element-wise results, and a burst "
+    "cubic polynomials) and with its algebraic laws; a fifth of the synthetic components gets another vapour-pressure equation assigned in place after a first use; numpy-array arguments must give the element-wise results, and a burst "
     "of concurrent calls from 4 threads the serial ones. Held means no oracle failed on this run's executions."
 )
 LEVEL_NOTE = "Trusted: numerical differentiation step 0.1 K (truncation < 1e-9 relative away from the Antoine pole); the sampled domain."
